@@ -769,19 +769,21 @@ impl StreamInfo {
         min_value: usize,
         max_value: usize,
     ) -> Result<(), VerifyError> {
-        self.min_block_size = min_value
+        let min_block_size: u16 = min_value
             .try_into()
             .map_err(|_| VerifyError::new("min_block_size", "must be a valid block size."))?;
-        self.max_block_size = max_value
+        let max_block_size: u16 = max_value
             .try_into()
             .map_err(|_| VerifyError::new("max_block_size", "must be a valid block size."))?;
-        verify_block_size!("min_block_size", self.min_block_size as usize)?;
-        verify_block_size!("max_block_size", self.max_block_size as usize)?;
+        verify_block_size!("min_block_size", min_block_size as usize)?;
+        verify_block_size!("max_block_size", max_block_size as usize)?;
         verify_true!(
             "min_block_size",
-            self.min_block_size <= self.max_block_size,
+            min_block_size <= max_block_size,
             "must be smaller than `max_block_size`"
         )?;
+        self.min_block_size = min_block_size;
+        self.max_block_size = max_block_size;
         Ok(())
     }
 
@@ -807,17 +809,19 @@ impl StreamInfo {
         min_value: usize,
         max_value: usize,
     ) -> Result<(), VerifyError> {
-        self.min_frame_size = min_value
+        let min_frame_size: u32 = min_value
             .try_into()
             .map_err(|_| VerifyError::new("min_frame_size", "must be a 32-bit integer."))?;
-        self.max_frame_size = max_value
+        let max_frame_size: u32 = max_value
             .try_into()
             .map_err(|_| VerifyError::new("min_frame_size", "must be a 32-bit integer."))?;
         verify_true!(
             "min_frame_size",
-            self.min_frame_size <= self.max_frame_size,
+            min_frame_size <= max_frame_size,
             "must be smaller than `max_frame_size`"
         )?;
+        self.min_frame_size = min_frame_size;
+        self.max_frame_size = max_frame_size;
         Ok(())
     }
 }
